@@ -1,7 +1,7 @@
 //@ unit cosets
 //@ props C11
 //@@ depends free_words partitions
-//@@ fnprops C13 lemma_ind_join lemma_ind_final lemma_ind_pairing lemma_core_trace lemma_core_fixes canary_induced_table_contract canary_core_table_contract lemma_rows_alloc_bound lemma_pairs_bound lemma_pigeon_int lemma_ix_join lemma_ix_final lemma_ix_pairing lemma_compacted_row lemma_pairing_trace lemma_intersection_fixes witness_intersection_contract canary_intersection_contract
+//@@ fnprops C13 lemma_ind_stable lemma_pinv_join lemma_pinv_next lemma_pinv_final lemma_core_rows witness_core_rows lemma_ind_join lemma_ind_final lemma_ind_pairing lemma_core_trace lemma_core_fixes canary_induced_table_contract canary_core_table_contract lemma_rows_alloc_bound lemma_pairs_bound lemma_pigeon_int lemma_ix_join lemma_ix_final lemma_ix_pairing lemma_compacted_row lemma_pairing_trace lemma_intersection_fixes witness_intersection_contract canary_intersection_contract
 #![feature(panic_internals)]
 #![feature(sized_hierarchy)]
 use vstd::prelude::*;
@@ -3312,6 +3312,128 @@ proof fn lemma_ind_pairing<F: Fn(&Vec<usize>, isize) -> Vec<usize>>(img: &F, t: 
     assert(ind_pairing(img, r, start, pa));
 }
 
+// ---- transitivity of the induced table ("its row count is the order of the permutation group generated by the action": with the injective
+// pairing, rows <-> reachable states is a bijection once every row is reached from row 0).  An entry (c, h) is PROCESSED when the
+// enumeration has called the closure on the state of row c with generator h; processed entries never change their value afterwards, and
+// every row is connected to row 0 through processed entries (second-order form, as for coset_table: every function that is constant
+// along the processed entries takes the same value at the row and at row 0).
+pub open spec fn processed(t: &CosetTable, i: int, idx: int, c: int, h: int) -> bool { c < i || (c == i && gen_index(t, h) < idx) }
+pub open spec fn padm(t: &CosetTable, i: int, idx: int, f: spec_fn(int) -> int) -> bool {
+    forall|c: int, h: int| 0 <= c < t.table@.len() && t.gen_ok(h) && processed(t, i, idx, c, h) && #[trigger] t.raw(c, h) >= 0 ==> f(t.raw(c, h)) == f(c)
+}
+pub open spec fn pconn(t: &CosetTable, i: int, idx: int, r: int) -> bool {
+    forall|f: spec_fn(int) -> int| #[trigger] padm(t, i, idx, f) ==> f(r) == f(0)
+}
+pub open spec fn pinv(t: &CosetTable, i: int, idx: int) -> bool {
+    forall|r: int| 0 <= r < t.table@.len() ==> #[trigger] pconn(t, i, idx, r)
+}
+// the join changed no processed entry
+pub open spec fn processed_stable(t0: &CosetTable, t1: &CosetTable, i: int, idx: int) -> bool {
+    forall|c: int, h: int| 0 <= c < t0.table@.len() && t0.gen_ok(h) && processed(t0, i, idx, c, h) && #[trigger] t0.raw(c, h) >= 0 ==> t1.raw(c, h) == t0.raw(c, h)
+}
+
+// the back entry (n, -g) that join(i, n, g) overwrites, if it was processed, already pointed to i
+proof fn lemma_ind_stable<F: Fn(&Vec<usize>, isize) -> Vec<usize>>(img: &F, t0: &CosetTable, t1: &CosetTable, o0: Map<Seq<usize>, usize>, m0: Map<usize, Seq<usize>>,
+                        start: Seq<usize>, i: int, idx: int, g: isize, xi: Vec<usize>, k: Vec<usize>, n: int)
+    requires img_pre(img, start, t0.nr_gens as int), ind_state(img, t0, o0, m0, start), 0 <= i < t0.table@.len(), t0.gen_ok(g as int), gen_index(t0, g as int) == idx,
+        xi@ == m0[i as usize], img.ensures((&xi, g), k),
+        o0.contains_key(k@) ==> n == o0[k@],
+        !o0.contains_key(k@) ==> n == t0.table@.len(),
+        t1.nr_gens == t0.nr_gens,
+        t1.raw(i, g as int) == n && t1.raw(n, -(g as int)) == i,
+        forall|c2: int, g2: int| 0 <= c2 < t1.table@.len() && t0.col_ok(g2) && !(c2 == i && g2 == g) && !(c2 == n && g2 == -(g as int))
+            ==> #[trigger] t1.raw(c2, g2) == (if c2 < t0.table@.len() { t0.raw(c2, g2) } else { -1 }),
+        t1.table@.len() >= t0.table@.len(),
+        // the closure has been called on every processed (row, generator)
+        forall|c: int, h: int| 0 <= c < t0.table@.len() && t0.gen_ok(h) && processed(t0, i, idx, c, h) ==> #[trigger] called(img, m0, c, h),
+    ensures processed_stable(t0, t1, i, idx)
+{
+    let gi = g as int;
+    assert forall|c: int, h: int| 0 <= c < t0.table@.len() && t0.gen_ok(h) && processed(t0, i, idx, c, h) && #[trigger] t0.raw(c, h) >= 0 implies t1.raw(c, h) == t0.raw(c, h) by {
+        if c == i && h == gi {
+            // not processed: gen_index(g) == idx
+        } else if c == n && h == -gi {
+            let mp = t0.raw(n, -gi);
+            // n is an old row here, so its state is k@
+            assert(n < t0.table@.len());
+            assert(o0.contains_key(k@));
+            assert(m0[o0[k@]] == k@);
+            assert(called(img, m0, n, -gi));
+            let (x, y) = choose|x: Vec<usize>, y: Vec<usize>| #[trigger] img.ensures((&x, (-gi) as isize), y) && x@ == m0[n as usize];
+            assert(-1 <= mp < t0.table@.len());
+            // the entry is the right one: y is the state of row mp
+            assert(y@ == m0[mp as usize]);
+            // the inverse generator undoes the generator: y is the state of row i
+            assert(st_ok(img, start, xi@));
+            assert(is_gen(g, t0.nr_gens as int));
+            assert(y@ == xi@);
+            assert(o0[m0[mp as usize]] == mp as usize && o0[m0[i as usize]] == i as usize);
+        } else {
+            assert(t0.col_ok(h));
+        }
+    }
+}
+
+proof fn lemma_pinv_join(t0: &CosetTable, t1: &CosetTable, i: int, idx: int, g: int, n: int)
+    requires pinv(t0, i, idx), 0 <= i < t0.table@.len(), t0.gen_ok(g), gen_index(t0, g) == idx, t1.nr_gens == t0.nr_gens,
+        0 <= n <= t0.table@.len(), t1.table@.len() == (if n < t0.table@.len() { t0.table@.len() as int } else { n + 1 }),
+        t1.raw(i, g) == n, processed_stable(t0, t1, i, idx),
+    ensures pinv(t1, i, idx + 1)
+{
+    assert forall|r: int| 0 <= r < t1.table@.len() implies #[trigger] pconn(t1, i, idx + 1, r) by {
+        assert forall|f: spec_fn(int) -> int| #[trigger] padm(t1, i, idx + 1, f) implies f(r) == f(0) by {
+            assert(padm(t0, i, idx, f)) by {
+                assert forall|c: int, h: int| 0 <= c < t0.table@.len() && t0.gen_ok(h) && processed(t0, i, idx, c, h) && #[trigger] t0.raw(c, h) >= 0 implies f(t0.raw(c, h)) == f(c) by {
+                    assert(t1.raw(c, h) == t0.raw(c, h));
+                    assert(processed(t1, i, idx + 1, c, h));
+                }
+            }
+            assert(pconn(t0, i, idx, i));
+            if r < t0.table@.len() { assert(pconn(t0, i, idx, r)); }
+            else {
+                assert(r == n);
+                assert(processed(t1, i, idx + 1, i, g));
+                assert(f(t1.raw(i, g)) == f(i));
+            }
+        }
+    }
+}
+
+// a row is finished: idx runs over all 2 * nr_gens generators, the next row starts at 0
+proof fn lemma_pinv_next(t: &CosetTable, i: int)
+    requires pinv(t, i, 2 * t.nr_gens)
+    ensures pinv(t, i + 1, 0)
+{
+    assert forall|r: int| 0 <= r < t.table@.len() implies #[trigger] pconn(t, i + 1, 0, r) by {
+        assert(pconn(t, i, 2 * t.nr_gens, r));
+        assert forall|f: spec_fn(int) -> int| #[trigger] padm(t, i + 1, 0, f) implies f(r) == f(0) by {
+            assert(padm(t, i, 2 * t.nr_gens, f)) by {
+                assert forall|c: int, h: int| 0 <= c < t.table@.len() && t.gen_ok(h) && processed(t, i, 2 * t.nr_gens, c, h) && #[trigger] t.raw(c, h) >= 0 implies f(t.raw(c, h)) == f(c) by {
+                    assert(processed(t, i + 1, 0, c, h));
+                }
+            }
+        }
+    }
+}
+
+// everything processed: connected through processed entries means connected (tinv), for a table with the identity partition
+proof fn lemma_pinv_final(t: &CosetTable, i: int)
+    requires pinv(t, i, 0), i >= t.table@.len(), forall|x: int| #[trigger] t.part.rep(x) == x,
+    ensures tinv(t, Seq::<(int, int)>::empty())
+{
+    let e = Seq::<(int, int)>::empty();
+    assert forall|c: int| 0 <= c < t.table@.len() implies #[trigger] tconn(t, e, c, 0) by {
+        assert(pconn(t, i, 0, c));
+        assert forall|f: spec_fn(int) -> int| #[trigger] tadm(t, e, f) implies f(c) == f(0) by {
+            assert(padm(t, i, 0, f)) by {
+                assert forall|c2: int, h: int| 0 <= c2 < t.table@.len() && t.gen_ok(h) && processed(t, i, 0, c2, h) && #[trigger] t.raw(c2, h) >= 0 implies f(t.raw(c2, h)) == f(c2) by {
+                    assert(canonical(t, c2));
+                }
+            }
+        }
+    }
+}
+
 //@ begin src/fpgroups/cosets.rs :: - :: fn induced_table | props=C13
 //@ rw R4 /fn induced_table<T, F>\(nr_gens: usize, img: F, start: &T\)/fn induced_table<F>(nr_gens: usize, img: F, start: &Vec<usize>)/
 //@ rw R4 /^[ \t]*T: Clone \+ Eq \+ std::hash::Hash,\n//
@@ -3334,6 +3456,8 @@ fn induced_table<F>(nr_gens: usize, img: F, start: &Vec<usize>) -> (result: Cose
     requires nr_gens < isize::MAX / 2, img_pre(&img, start@, nr_gens as int),
     // C13: a valid table whose rows are, injectively, the states reached from `start`, row 0 being `start`, with the closure's action
     ensures valid(&result), result.nr_gens == nr_gens, exists|pa: Seq<Seq<usize>>| ind_pairing(&img, &result, start@, pa),
+        // every row is reached from row 0: with the injective pairing, rows <-> states reachable from `start` is a bijection
+        transitive(&result),
 {
     let mut table = CosetTable::new(nr_gens);
     let mut o2n = __o2n_from1(start.clone(), 0);
@@ -3350,15 +3474,17 @@ fn induced_table<F>(nr_gens: usize, img: F, start: &Vec<usize>) -> (result: Cose
 
     let mut __i: usize = 0;
     loop
-        invariant_except_break __i <= table.table@.len(),
+        invariant_except_break __i <= table.table@.len(), pinv(&table, __i as int, 0),
         invariant img_pre(&img, start@, nr_gens as int), table.nr_gens == nr_gens,
             ind_state(&img, &table, oview(&o2n), nview(&n2o), start@),
             forall|k: int| 0 <= k < __i && k < table.table@.len() ==> #[trigger] ind_row_done(&img, &table, nview(&n2o), k),
         ensures ind_state(&img, &table, oview(&o2n), nview(&n2o), start@), table.nr_gens == nr_gens,
+            tinv(&table, Seq::<(int, int)>::empty()),
             forall|k: int| 0 <= k < table.table@.len() ==> #[trigger] ind_row_done(&img, &table, nview(&n2o), k),
     {
         let i = __i; __i += 1;
         if i >= table.len() {
+            proof { lemma_pinv_final(&table, i as int); }
             break;
         }
         for g in it: table.all_gens()
@@ -3368,6 +3494,7 @@ fn induced_table<F>(nr_gens: usize, img: F, start: &Vec<usize>) -> (result: Cose
                 it.seq().len() == 2 * table.nr_gens,
                 forall|k: int| 0 <= k < it.seq().len() ==> table.gen_ok(#[trigger] it.seq()[k] as int) && gen_index(&table, it.seq()[k] as int) == k,
                 forall|h: int| table.gen_ok(h) && gen_index(&table, h) < it.index() ==> #[trigger] table.raw(i as int, h) >= 0 && called(&img, nview(&n2o), i as int, h),
+                pinv(&table, i as int, it.index() as int),
         {
             let ghost idx = it.index() as int;
             proof { assert(table.gen_ok(it.seq()[idx] as int) && gen_index(&table, it.seq()[idx] as int) == idx); }
@@ -3386,6 +3513,11 @@ fn induced_table<F>(nr_gens: usize, img: F, start: &Vec<usize>) -> (result: Cose
             table.join(i, n, g);
             proof {
                 lemma_rows_alloc_bound(&table.table);
+                assert forall|c: int, h: int| 0 <= c < t0.table@.len() && t0.gen_ok(h) && processed(&t0, i as int, idx, c, h) implies #[trigger] called(&img, m0, c, h) by {
+                    if c < i { assert(ind_row_done(&img, &t0, m0, c)); } else { assert(t0.raw(i as int, h) >= 0); }
+                }
+                lemma_ind_stable(&img, &t0, &table, o0, m0, start@, i as int, idx, g, xi, k, n as int);
+                lemma_pinv_join(&t0, &table, i as int, idx, g as int, n as int);
                 lemma_ind_join(&img, &t0, &table, o0, m0, oview(&o2n), nview(&n2o), start@, i as int, g, xi, k, n as int);
                 let m1s = nview(&n2o);
                 assert forall|kk: int| 0 <= kk < i implies #[trigger] ind_row_done(&img, &table, m1s, kk) by {
@@ -3406,6 +3538,7 @@ fn induced_table<F>(nr_gens: usize, img: F, start: &Vec<usize>) -> (result: Cose
             }
         }
         proof {
+            lemma_pinv_next(&table, i as int);
             assert(ind_row_done(&img, &table, nview(&n2o), i as int)) by {
                 assert forall|h: int| table.gen_ok(h) implies #[trigger] table.raw(i as int, h) >= 0 by { assert(0 <= gen_index(&table, h) < 2 * table.nr_gens); }
                 assert forall|h: int| table.gen_ok(h) implies #[trigger] called(&img, nview(&n2o), i as int, h) by { assert(0 <= gen_index(&table, h) < 2 * table.nr_gens); assert(table.raw(i as int, h) >= 0); }
@@ -3413,7 +3546,7 @@ fn induced_table<F>(nr_gens: usize, img: F, start: &Vec<usize>) -> (result: Cose
         }
     }
 
-    proof { lemma_ind_final(&img, &table, oview(&o2n), nview(&n2o), start@); }
+    proof { lemma_ind_final(&img, &table, oview(&o2n), nview(&n2o), start@); lemma_tinv_reach(&table); }
     let __r = table.compact();
     proof {
         let nw = choose|nw: Seq<int>| compacted(&table, &__r, nw);
@@ -3463,6 +3596,8 @@ pub fn core_table(base: &CosetTable) -> (result: CosetTable)
     // C13 "the core table is the regular action of the quotient by the kernel": its rows are, injectively, the tuples into which the
     // generators move the identity tuple (0, 1, ..., n-1) of rows of `base`
     ensures valid(&result), result.nr_gens == base.nr_gens, exists|pa: Seq<Seq<usize>>| core_pairing(base, &result, pa),
+        // every row is reached from row 0 (so, by lemma_core_rows, the rows ARE the elements of the permutation group the action generates)
+        transitive(&result),
 {
     let img = |es: &Vec<usize>, g: isize| -> (r: Vec<usize>)
         requires valid(base), base.gen_ok(g as int), good_tuple(base, es@)
@@ -3572,6 +3707,54 @@ pub proof fn lemma_core_fixes(base: &CosetTable, t: &CosetTable, pa: Seq<Seq<usi
         }
         assert(pa[y] =~= pa[0]);
         assert(y == 0);
+    }
+}
+
+// ... so the rows of the core table correspond ONE TO ONE to the permutations of the rows of `base` that words in the generators induce
+// ("its row count is the order of the permutation group generated by the action"): the permutation induced by w is the tuple
+// (trace(base, 0, w), ..., trace(base, n-1, w)); every row carries the tuple of some word (transitivity), every word's tuple is carried by
+// a row (completeness), and different rows carry different tuples (injectivity of the pairing).
+pub open spec fn word_tuple(base: &CosetTable, w: Seq<isize>, s: Seq<usize>) -> bool {
+    s.len() == base.table@.len() && forall|j: int| 0 <= j < base.table@.len() ==> trace(base, j, w) == Some(#[trigger] s[j])
+}
+pub proof fn lemma_core_rows(base: &CosetTable, t: &CosetTable, pa: Seq<Seq<usize>>)
+    requires valid(base), valid(t), transitive(t), t.nr_gens == base.nr_gens, core_pairing(base, t, pa),
+        base.table@.len() <= usize::MAX, t.table@.len() <= usize::MAX,
+    ensures
+        forall|r: int| #[trigger] is_row(t, r) ==> exists|w: Seq<isize>| gens_ok(t, w) && #[trigger] word_tuple(base, w, pa[r]),
+        forall|w: Seq<isize>| #[trigger] gens_ok(t, w) ==> exists|r: int| 0 <= r < t.table@.len() && #[trigger] word_tuple(base, w, pa[r]),
+        forall|r1: int, r2: int| 0 <= r1 < pa.len() && 0 <= r2 < pa.len() && #[trigger] pa[r1] == #[trigger] pa[r2] ==> r1 == r2,
+{
+    assert forall|j: int| 0 <= j < base.table@.len() implies pa[0][j] == j by { }
+    assert forall|r: int| #[trigger] is_row(t, r) implies exists|w: Seq<isize>| gens_ok(t, w) && #[trigger] word_tuple(base, w, pa[r]) by {
+        let w = choose|w: Seq<isize>| gens_ok(t, w) && #[trigger] trace(t, 0, w) == Some(r as usize);
+        lemma_core_trace(base, t, pa, 0, w);
+        assert(good_tuple(base, pa[r]));
+        assert forall|j: int| 0 <= j < base.table@.len() implies trace(base, j, w) == Some(#[trigger] pa[r][j]) by {
+            assert(trace(base, pa[0][j] as int, w).is_some());
+        }
+        assert(word_tuple(base, w, pa[r]));
+    }
+    assert forall|w: Seq<isize>| #[trigger] gens_ok(t, w) implies exists|r: int| 0 <= r < t.table@.len() && #[trigger] word_tuple(base, w, pa[r]) by {
+        lemma_core_trace(base, t, pa, 0, w);
+        let r = trace(t, 0, w).unwrap() as int;
+        assert(good_tuple(base, pa[r]));
+        assert forall|j: int| 0 <= j < base.table@.len() implies trace(base, j, w) == Some(#[trigger] pa[r][j]) by {
+            assert(trace(base, pa[0][j] as int, w).is_some());
+        }
+        assert(word_tuple(base, w, pa[r]));
+    }
+}
+
+// the contract of core_table is what lemma_core_rows needs: the chain connects (must verify)
+fn witness_core_rows(base: &CosetTable)
+    requires valid(base)
+{
+    let c = core_table(base);
+    let n0 = base.len(); let n1 = c.len();
+    proof {
+        let pa = choose|pa: Seq<Seq<usize>>| core_pairing(base, &c, pa);
+        lemma_core_rows(base, &c, pa);
     }
 }
 
